@@ -556,7 +556,7 @@ def run(ctx):
 
     n_dag = 90 if quick else 560
     import itertools
-    for c in itertools.chain(K.corpus_stream(rng, "C04"), K.alias_stream(rng, 15 if quick else 60),
+    for c in itertools.chain(K.corpus_stream(rng, "C04"), K.alias_stream(rng, 15 if quick else 30),
                              K.dag_stream(rng, n_dag, overridable_every=3, start=7000)):
         if not isinstance(c, G.Case):
             discards["generator-error: " + c[1][:60]] += 1
